@@ -10,8 +10,33 @@
 //!    monotone step function (exactness, gap bounded), and termination without overflow when
 //!    no further change point exists (full width).
 
+use crate::ms::U256;
 use crate::spec;
 use crate::src::Src;
+
+/// exact accumulator in units of 2^-255 (1.0 == 2^255); adds count * 2^-len and checks sum <= 1
+struct Kraft {
+    sum: U256,
+}
+impl Kraft {
+    fn new() -> Self {
+        Kraft { sum: U256::ZERO }
+    }
+    fn add(&mut self, count: u128, len: usize) {
+        assert!(len >= 1 && len <= 255, "length beyond the fixed-point range");
+        // a single piece alone must not exceed 1: count <= 2^len
+        assert!(len >= 128 || count <= (1u128 << len), "Kraft sum of a prefix of the values exceeds 1");
+        let term = U256 { hi: 0, lo: count }.shl(255 - len);
+        // 256-bit addition
+        let (lo, c) = self.sum.lo.overflowing_add(term.lo);
+        let (hi1, c1) = self.sum.hi.overflowing_add(term.hi);
+        let (hi, c2) = hi1.overflowing_add(c as u128);
+        assert!(!c1 && !c2, "Kraft sum of a prefix of the values exceeds 1");
+        self.sum = U256 { hi, lo };
+        let one = U256 { hi: 1u128 << 127, lo: 0 };
+        assert!(self.sum.hi < one.hi || (self.sum.hi == one.hi && self.sum.lo == 0), "Kraft sum of a prefix of the values exceeds 1");
+    }
+}
 use dsi_bitstream::prelude::*;
 use dsi_bitstream::utils::FindChangePoints;
 
@@ -87,14 +112,14 @@ pub fn piece_lemma<S: Src, const CODE: u8, const KLO: usize, const KHI: usize>(s
     let st = piece_start(CODE, n, k);
     assert!(st <= n, "piece start");
     assert_eq!(len_of(CODE, n, k), len_of(CODE, st, k), "length differs inside a piece");
-    crate::cover!(s, n > st + 1000, "deep inside a piece");
+    crate::cover!(s, n - st > 1000, "deep inside a piece");
 }
 
 /// exact Kraft sum over the 64 pieces [2^l - 1, 2^(l+1) - 2] (last one truncated at 2^64-2), using the
 /// library's length at each piece start; 2^-127 fixed point. Concrete parameter K.
 pub fn kraft_log_pieces<S: Src, const CODE: u8, const K: usize>(s: &mut S) {
     let cap = (u64::MAX - 1) as u128;
-    let mut sum: u128 = 0;
+    let mut kr = Kraft::new();
     let mut l = 0usize;
     while l < 64 {
         let start: u128 = if CODE == C_EXPG { ((1u128 << l) - 1) << K } else { (1u128 << l) - 1 };
@@ -106,16 +131,10 @@ pub fn kraft_log_pieces<S: Src, const CODE: u8, const K: usize>(s: &mut S) {
             count = cap - start + 1;
         }
         let len = len_of(CODE, start as u64, K);
-        assert!(len <= 127, "length beyond the fixed-point range");
-        let term = count << (127 - len);
-        assert!((term >> (127 - len)) == count, "fixed-point overflow");
-        let ns = sum.checked_add(term);
-        assert!(ns.is_some(), "Kraft sum overflows");
-        sum = ns.unwrap();
-        assert!(sum <= 1u128 << 127, "Kraft sum of a prefix of the values exceeds 1");
+        kr.add(count, len);
         l += 1;
     }
-    crate::cover!(s, sum > 0, "reached");
+    crate::cover!(s, kr.sum.hi > 0, "reached");
 }
 
 /// zeta_k: pieces are (h, short codewords) and (h, long codewords); lemma for symbolic n + exact sum
@@ -142,10 +161,10 @@ pub fn zeta_piece_lemma<S: Src, const KLO: usize, const KHI: usize>(s: &mut S) {
     let (st, _) = zeta_piece(n, k);
     assert!(st <= n, "piece start");
     assert_eq!(len_zeta(n, k), len_zeta(st, k), "length differs inside a piece");
-    crate::cover!(s, n > st + 1000, "deep inside a piece");
+    crate::cover!(s, n - st > 1000, "deep inside a piece");
 }
 pub fn kraft_zeta<S: Src, const K: usize>(s: &mut S) {
-    let mut sum: u128 = 0;
+    let mut kr = Kraft::new();
     let mut h = 0usize;
     while (h + 1) * K <= 64 {
         let lo = 1u128 << (h * K);
@@ -162,7 +181,7 @@ pub fn kraft_zeta<S: Src, const K: usize>(s: &mut S) {
                     cnt = cap - st + 1;
                 }
                 let len = len_zeta(st as u64, K);
-                sum += cnt << (127 - len);
+                kr.add(cnt, len);
             }
         }
         let st = lo + thr - 1;
@@ -172,13 +191,11 @@ pub fn kraft_zeta<S: Src, const K: usize>(s: &mut S) {
                 cnt = cap - st + 1;
             }
             let len = len_zeta(st as u64, K);
-            assert!(len <= 127);
-            sum += cnt << (127 - len);
+            kr.add(cnt, len);
         }
-        assert!(sum <= 1u128 << 127, "Kraft sum of a prefix of the values exceeds 1");
         h += 1;
     }
-    crate::cover!(s, sum > 0, "reached");
+    crate::cover!(s, kr.sum.hi > 0, "reached");
 }
 
 /// VByte: 10 pieces [lower(L), lower(L+1))
@@ -187,7 +204,7 @@ pub fn vbyte_pieces<S: Src>(s: &mut S) {
     let l = spec::vbyte_bytes(n);
     assert_eq!(bit_len_vbyte(n), bit_len_vbyte(spec::VB_LOWER[l] as u64), "length differs inside a piece");
     assert_eq!(bit_len_vbyte(n), 8 * l, "length of piece L is 8L");
-    let mut sum: u128 = 0;
+    let mut kr = Kraft::new();
     let mut j = 1;
     while j <= 10 {
         let lo = spec::VB_LOWER[j];
@@ -195,10 +212,9 @@ pub fn vbyte_pieces<S: Src>(s: &mut S) {
         if hi > u64::MAX as u128 + 1 {
             hi = u64::MAX as u128 + 1;
         }
-        sum += (hi - lo) << (127 - 8 * j);
+        kr.add(hi - lo, 8 * j);
         j += 1;
     }
-    assert!(sum <= 1u128 << 127, "Kraft sum exceeds 1");
     crate::cover!(s, l == 10, "ten bytes");
 }
 
@@ -250,7 +266,7 @@ pub fn fcp_first<S: Src>(s: &mut S) {
 
 /// exactness of one next(): symbolic step function with change points b1 < b2, iterator at an
 /// arbitrary state (current, f(current)) below b1, gap b1 - current < 2^GAP
-pub fn fcp_exact<S: Src, const GAP: u32>(s: &mut S) {
+pub fn fcp_exact<S: Src, const GAP: u32, const CURBITS: u32>(s: &mut S) {
     let b1 = s.u64();
     let b2 = s.u64();
     let v0 = s.usize();
@@ -259,6 +275,7 @@ pub fn fcp_exact<S: Src, const GAP: u32>(s: &mut S) {
     let cur = s.u64();
     s.assume(v0 < v1 && v1 < v2 && v2 < usize::MAX);
     s.assume(b1 < b2 && cur < b1 && b1 - cur < (1u64 << GAP));
+    s.assume(CURBITS >= 64 || cur < (1u64 << CURBITS));
     s.assume(b1 <= (1u64 << 63));
     let f = move |x: u64| {
         if x < b1 {
@@ -304,7 +321,8 @@ crate::harnesses! {
     c20_mono_pi (quick, "len_pi", "k in 0..=63 symbolic, n<=2^64-3") => monotone::<_, {C_PI}, 0, 63, 64>;
     c20_mono_expgolomb (quick, "len_exp_golomb", "k in 0..=63 symbolic, n<=2^64-3") => monotone::<_, {C_EXPG}, 0, 63, 64>;
     c20_mono_rice (quick, "len_rice", "k in 0..=63 symbolic, n>>k < 2^40") => monotone::<_, {C_RICE}, 0, 63, 64>;
-    c20_mono_golomb (quick, "len_golomb", "b in 1..=64 symbolic, n<2^32") => monotone::<_, {C_GOLOMB}, 1, 64, 32>;
+    c20_mono_golomb (quick, "len_golomb", "b in 1..=16 symbolic, n<2^16") => monotone::<_, {C_GOLOMB}, 1, 16, 16>;
+    c20_mono_golomb_b64 (thorough, "len_golomb", "b in 1..=64 symbolic, n<2^32") => monotone::<_, {C_GOLOMB}, 1, 64, 32>;
     c20_mono_golomb_wide (thorough, "len_golomb", "b in 1..=4096 symbolic, n<2^40") => monotone::<_, {C_GOLOMB}, 1, 4096, 40>;
     c20_mono_minbin (quick, "len_minimal_binary", "u symbolic (any u64>=2), n+1<u") => monotone::<_, {C_MINBIN}, 2, {usize::MAX}, 64>;
     #[kani::unwind(8)]
@@ -370,19 +388,26 @@ crate::harnesses! {
     #[kani::unwind(13)]
     c20_vbyte_pieces (quick, "bit_len_vbyte", "length constant on each of the 10 pieces (symbolic n) and exact Kraft sum") => vbyte_pieces;
     c20_period_rice (quick, "len_rice", "len(n+2^k)=len(n)+1, k in 0..=20 symbolic, n<2^40") => period_lemma::<_, {C_RICE}, 20, 40>;
-    c20_period_golomb (quick, "len_golomb", "len(n+b)=len(n)+1, b in 1..=64 symbolic, n<2^32") => period_lemma::<_, {C_GOLOMB}, 64, 32>;
+    c20_period_golomb (quick, "len_golomb", "len(n+b)=len(n)+1, b in 1..=16 symbolic, n<2^16") => period_lemma::<_, {C_GOLOMB}, 16, 16>;
+    c20_period_golomb_b64 (thorough, "len_golomb", "len(n+b)=len(n)+1, b in 1..=64 symbolic, n<2^32") => period_lemma::<_, {C_GOLOMB}, 64, 32>;
     c20_rice_first_period (quick, "len_rice", "first period has 2^k values of length k+1 (k symbolic 0..=63)") => rice_first_period;
     #[kani::unwind(27)]
     c20_golomb_first_period_1_24 (quick, "len_golomb", "exact Kraft sum of the first period == 1/2 for b in 1..=24 (concrete loops)") => golomb_first_period::<_, 1, 24>;
     #[kani::unwind(67)]
     c20_golomb_first_period_25_64 (thorough, "len_golomb", "exact Kraft sum of the first period == 1/2 for b in 25..=64 (concrete loops)") => golomb_first_period::<_, 25, 64>;
     c20_fcp_first (quick, "FindChangePoints::next (first call)", "any constant function") => fcp_first;
+    #[kani::unwind(9)]
+    c20_fcp_exact_5 (thorough, "FindChangePoints::next from an arbitrary state", "symbolic step function (2 change points, symbolic values), gap to the next change point < 2^5") => fcp_exact::<_, 5, 64>;
     #[kani::unwind(12)]
-    c20_fcp_exact_8 (quick, "FindChangePoints::next from an arbitrary state", "symbolic step function (2 change points, symbolic values), gap to the next change point < 2^8") => fcp_exact::<_, 8>;
+    c20_fcp_exact_8 (thorough, "FindChangePoints::next from an arbitrary state", "symbolic step function (2 change points, symbolic values), gap to the next change point < 2^8") => fcp_exact::<_, 8, 64>;
     #[kani::unwind(20)]
-    c20_fcp_exact_16 (thorough, "FindChangePoints::next from an arbitrary state", "symbolic step function (2 change points, symbolic values), gap to the next change point < 2^16") => fcp_exact::<_, 16>;
+    c20_fcp_exact_16 (thorough, "FindChangePoints::next from an arbitrary state", "symbolic step function (2 change points, symbolic values), gap to the next change point < 2^16") => fcp_exact::<_, 16, 64>;
     #[kani::unwind(36)]
-    c20_fcp_exact_32 (thorough, "FindChangePoints::next from an arbitrary state", "symbolic step function, gap < 2^32") => fcp_exact::<_, 32>;
+    c20_fcp_exact_32 (thorough, "FindChangePoints::next from an arbitrary state", "symbolic step function, gap < 2^32") => fcp_exact::<_, 32, 64>;
     #[kani::unwind(67)]
     c20_fcp_terminates (quick, "FindChangePoints::next from an arbitrary state", "function constant from current on, any current > 0 (full width)") => fcp_terminates;
+    #[kani::unwind(12)]
+    c20_fcp_exact_8_cur0 (quick, "FindChangePoints::next from the state after the first item", "symbolic step function, current = 0, first change point < 2^8") => fcp_exact::<_, 8, 0>;
+    #[kani::unwind(12)]
+    c20_fcp_exact_8_cur16 (thorough, "FindChangePoints::next from an arbitrary state", "symbolic step function, current < 2^16, gap < 2^8") => fcp_exact::<_, 8, 16>;
 }
